@@ -271,6 +271,11 @@ func (t *BoltTransport) dispatchHistory(s *LocalSubscriber, toSeq uint64) error 
 				continue
 			}
 
+			// Updates stored after the registration of the subscriber are dispatched live, not from the history
+			if binary.BigEndian.Uint64(k[:8]) > toSeq {
+				break
+			}
+
 			var update *Update
 			if err := json.Unmarshal(v, &update); err != nil {
 				s.HistoryDispatched(responseLastEventID)
@@ -281,7 +286,7 @@ func (t *BoltTransport) dispatchHistory(s *LocalSubscriber, toSeq uint64) error 
 				return fmt.Errorf("unable to unmarshal update: %w", err)
 			}
 
-			if (s.Match(update) && !s.Dispatch(update, true)) || (toSeq > 0 && binary.BigEndian.Uint64(k[:8]) >= toSeq) {
+			if s.Match(update) && !s.Dispatch(update, true) {
 				s.HistoryDispatched(responseLastEventID)
 
 				return nil
